@@ -1,4 +1,4 @@
-package modbus
+package store
 
 import (
 	"fmt"
